@@ -16,7 +16,7 @@ STUBS = []
 OUTSIDE = ["which dependencies an inherited method follows when the method it names as a dependency is overridden in a subclass (statement silent; the implementation keeps the ancestor's)", "sub-object dependencies (C07)", "async methods", "queued=True on depends", "more than 3 classes in the hierarchy"]
 ASSUMPTIONS = ["values symbolic ints in [0,10] (b has bounds), bounds edits (0, 10+x)"]
 DEPSETS = [('a',), ('b',), ('a', 'b'), ('b:bounds',), ('a', 'b:bounds')]
-N_OPS = 8
+N_OPS = 9
 DICTS = [{'a': 1, 'b': 2}, {'a': 1, 'c': 2}, {'a': 1, 'b': 3}, {'b': 2, 'a': 1}]
 OV = ['none', 'decorated override', 'undecorated override', 'grandchild of a decorated override', 'mixin in front of the base',
       'grandchild of an undecorated override']
@@ -97,14 +97,21 @@ def prog(ds1: int, init1: bool, ov: int, ds2: int, init2: bool, k: int,
     if ov in (1, 2, 3, 5):
         check('C06.override_replaces', log.count('A.m') == 0, dict(info0, log=list(log)))
     flog = []
+    glog = []
     with untraced():
         f = param.depends(p.param.a, watch=True)(lambda a: flog.append(a))
-    st = {'a': 0, 'b': 0, 'bb': (0, 10), 'd': {'a': 1, 'b': 2}}
+        class A2(param.Parameterized):
+            a = param.Integer(default=0)
+        p2 = A2()
+        # function form over like-named Parameters of two objects
+        g = param.depends(p.param.a, p2.param.a, watch=True)(lambda a, a2: glog.append((a, a2)))
+    st = {'a': 0, 'b': 0, 'bb': (0, 10), 'd': {'a': 1, 'b': 2}, 'a2': 0}
     for step, (o, x) in enumerate(((o1, x1), (o2, x2), (o3, x3), (o4, x4))[:k]):
         o = pick(o, 0, N_OPS - 1)
         cover('C06.op%d' % o)
         del log[:]
         del flog[:]
+        del glog[:]
         ch = set()
 
         def setv(n, v):
@@ -112,7 +119,12 @@ def prog(ds1: int, init1: bool, ov: int, ds2: int, init2: bool, k: int,
                 ch.add(n)
             st[n] = v
         batch_kinds = set()
-        if o == 7:      # a dict-valued dependency replaced by an equal / a different dict of the same size
+        if o == 8:      # the like-named parameter of the second object changes
+            p2.a = x
+            check('C06.function_form', len(glog) == (1 if st['a2'] != x else 0) and len(flog) == 0,
+                  dict(info0, op=o, second_object=True, g=len(glog), f=len(flog)))
+            st['a2'] = x
+        elif o == 7:      # a dict-valued dependency replaced by an equal / a different dict of the same size
             nd = dict(DICTS[pick(x, 0, 3)])
             p.d = nd
             check('C06.once', log.count('dm') == (0 if nd == st['d'] else 1),
@@ -175,6 +187,8 @@ def prog(ds1: int, init1: bool, ov: int, ds2: int, init2: bool, k: int,
         if auto and ov in (0, 4):
             check('C06.method_dep', log.count('via') == exp, dict(info, via=log.count('via')))
         check('C06.function_form', len(flog) == (1 if 'a' in ch else 0), dict(info, f=len(flog)))
+        if o != 8:
+            check('C06.function_form', len(glog) == (1 if 'a' in ch else 0), dict(info, g=len(glog), two_objects=True))
 
 
 def _ranges(consts):
@@ -209,4 +223,4 @@ def shards(tier):
 
 def bounds(tier):
     return dict(program_length=2 if tier == 'quick' else 3, dependency_sets=[list(d) for d in DEPSETS], override_patterns=OV,
-                opcodes=['set a', 'set b', 'set b.bounds', 'update(a,b)', 'batch{a; b.bounds}', 'batch{a; b; a}', 'batch{a; b.bounds; b}', 'set the Dict parameter d'], values='[0,10]')
+                opcodes=['set a', 'set b', 'set b.bounds', 'update(a,b)', 'batch{a; b.bounds}', 'batch{a; b; a}', 'batch{a; b.bounds; b}', 'set the Dict parameter d', 'set a on a second object (function form over two objects)'], values='[0,10]')
